@@ -17,6 +17,26 @@ func outProp(id string) *common.Prop {
 	}
 }
 
-var props = []*common.Prop{outProp("C01"), outProp("C04"), outProp("C17")}
+var props = []*common.Prop{outProp("C01"), outProp("C04"), outProp("C17"),
+	{ID: "C02", New: func() interface{} { return &InCase{} },
+		Gen:    func(r *simrt.Rand, tier string, idx int) interface{} { return genInCase(r, tier) },
+		Run:    func(t *testing.T, c interface{}, trace bool) *common.Outcome { return runIn(t, c, trace) },
+		Shrink: shrinkIn,
+		Exclude: func(ci interface{}, open map[string]bool) bool {
+			c := ci.(*InCase)
+			for _, cn := range c.Conns {
+				if cn.End != "fin" && cn.End != "close" {
+					continue
+				}
+				if open["S22a"] && c.Eng.Mode == "LT" {
+					return true
+				}
+				if open["S22b"] && c.Eng.Async && c.Eng.Mode != "LT" {
+					return true
+				}
+			}
+			return false
+		}},
+}
 
 func TestWorker(t *testing.T) { common.WorkerMain(t, props) }
